@@ -626,6 +626,260 @@ func (w *world) deleteRangeCases(run *lib.Run, seed uint64, rng *lib.Rand, count
 	}
 }
 
+// ---- storage-API section: one instance whose TKeys lie in several classes ----
+
+var mcClasses = []byte{2, 70, 177, 178, 255}
+
+func mcUniverse() []storage.TKey {
+	var u []storage.TKey
+	for _, c := range mcClasses {
+		for _, b := range [][]byte{{0, 0}, {0x61, 0x30}, {0xff, 0xff}} {
+			u = append(u, storage.NewTKey(storage.TKeyClass(c), b))
+		}
+	}
+	return u
+}
+
+func tkvItems(bd *lib.Binder, l []*storage.TKeyValue) []string {
+	ss := make([]string, len(l))
+	for i, e := range l {
+		ss[i] = "(" + bd.Bytes(e.K) + ", " + bd.Bytes(e.V) + ")"
+	}
+	return ss
+}
+
+// multiClass builds a small branched history through db.Put / db.Delete under VersionedCtxs with TKeys
+// of five classes, then asks, per version, every range consumer for intervals inside one class,
+// across classes and over the whole TKey space; finally two DeleteRange calls (cross-class, whole
+// space) on an open version.  only: "" all, "v<n>" that version case, "d<n>" that DeleteRange case.
+func multiClass(run *lib.Run, seed uint64, n int, thorough bool, only string) {
+	rng := lib.NewRand(seed)
+	h, err := kvhist.New(rng, fmt.Sprintf("mc%d", n))
+	if err != nil {
+		panic(err)
+	}
+	w := &world{h: h, special: "multiclass"}
+	d, err := datastore.GetDataByUUIDName(dvid.UUID(h.Root), dvid.InstanceName(h.Inst))
+	if err != nil {
+		panic(err)
+	}
+	w.data = d
+	w.inst = uint32(d.InstanceID())
+	if w.db, err = datastore.GetOrderedKeyValueDB(d); err != nil {
+		panic(err)
+	}
+	uni := mcUniverse()
+	ctr := 0
+	write := func(v, count int) {
+		for j := 0; j < count; j++ {
+			tk := uni[rng.Intn(len(uni))]
+			switch x := rng.Intn(10); {
+			case x < 2:
+				w.db.Delete(w.ctx(v), tk)
+			case x == 2:
+				w.db.Put(w.ctx(v), tk, []byte{}) // an empty value is a value
+			default:
+				ctr++
+				w.db.Put(w.ctx(v), tk, []byte{tk[0], byte(ctr)})
+			}
+		}
+	}
+	write(1, 9)
+	h.Commit(1)
+	h.Child("branch", []int{1})     // 2
+	h.Child("newversion", []int{1}) // 3
+	write(2, 5)
+	write(3, 5)
+	h.Commit(2)
+	h.Child("newversion", []int{2}) // 4, open
+	write(4, 3)
+
+	minT := func(c byte) storage.TKey { return storage.MinTKey(storage.TKeyClass(c)) }
+	maxT := func(c byte) storage.TKey { return storage.MaxTKey(storage.TKeyClass(c)) }
+	type iv struct {
+		lo, hi storage.TKey
+		kind  string
+	}
+	intervals := func(r *lib.Rand, nq int) []iv {
+		pc := func() byte { return mcClasses[r.Intn(len(mcClasses))] }
+		l := []iv{{minT(storage.TKeyMinClass), maxT(storage.TKeyMaxClass), "whole-space"}}
+		c := pc()
+		l = append(l, iv{minT(c), maxT(c), "one-class"})
+		c1, c2 := pc(), pc()
+		if c1 > c2 {
+			c1, c2 = c2, c1
+		}
+		if c1 == c2 {
+			c1, c2 = mcClasses[0], mcClasses[len(mcClasses)-1]
+		}
+		l = append(l, iv{minT(c1), maxT(c2), "cross-class-bounds"})
+		for len(l) < nq {
+			a, b := uni[r.Intn(len(uni))], uni[r.Intn(len(uni))]
+			if bytes.Compare(a, b) > 0 && r.Chance(0.85) {
+				a, b = b, a
+			}
+			kind := "cross-class-keys"
+			switch {
+			case bytes.Compare(a, b) > 0:
+				kind = "empty"
+			case a[0] == b[0]:
+				kind = "one-class-keys"
+			}
+			l = append(l, iv{a, b, kind})
+		}
+		return l
+	}
+
+	nq := 6
+	if thorough {
+		nq = 9
+	}
+	for v := 1; v <= len(h.UUIDs); v++ {
+		r := lib.NewRand(seed*131 + uint64(v))
+		if only != "" && only != fmt.Sprintf("v%d", v) {
+			continue
+		}
+		bd := lib.NewBinder()
+		entries := w.dump()
+		table := w.table(bd, v, entries)
+		ctx := w.ctx(v)
+		var pts []string
+		for _, tk := range uni {
+			pts = append(pts, fmt.Sprintf("(%s, %s)", bd.Bytes(tk), w.dbGet(v, tk)))
+		}
+		var qs []string
+		for _, q := range intervals(r, nq) {
+			run.Count("multiclass-interval:" + q.kind)
+			rcls, rItems := "ok", []string(nil)
+			if pan, _ := lib.Recover(func() {
+				l, err := w.db.GetRange(ctx, q.lo, q.hi)
+				if err != nil {
+					rcls = "err"
+					return
+				}
+				rItems = tkvItems(bd, l)
+			}); pan {
+				rcls = "panic"
+			}
+			kcls, kItems := "ok", []string(nil)
+			if pan, _ := lib.Recover(func() {
+				l, err := w.db.KeysInRange(ctx, q.lo, q.hi)
+				if err != nil {
+					kcls = "err"
+					return
+				}
+				for _, tk := range l {
+					kItems = append(kItems, bd.Bytes(tk))
+				}
+			}); pan {
+				kcls = "panic"
+			}
+			pcls, pItems := "ok", []string(nil)
+			if pan, _ := lib.Recover(func() {
+				err := w.db.ProcessRange(ctx, q.lo, q.hi, &storage.ChunkOp{}, func(c *storage.Chunk) error {
+					if c != nil && c.TKeyValue != nil {
+						pItems = append(pItems, "("+bd.Bytes(c.K)+", "+bd.Bytes(c.V)+")")
+					}
+					return nil
+				})
+				if err != nil {
+					pcls = "err"
+				}
+			}); pan {
+				pcls = "panic"
+			}
+			scls, sItems := "ok", []string(nil)
+			if pan, _ := lib.Recover(func() {
+				ch := make(storage.KeyChan)
+				done := make(chan struct{})
+				go func() {
+					for k := range ch {
+						if k == nil {
+							break
+						}
+						sItems = append(sItems, bd.Bytes(k))
+					}
+					close(done)
+				}()
+				if err := w.db.SendKeysInRange(ctx, q.lo, q.hi, ch); err != nil {
+					scls = "err"
+				}
+				<-done
+			}); pan {
+				scls = "panic"
+			}
+			qs = append(qs, fmt.Sprintf("{| m_lo := %s; m_hi := %s; m_range := %s; m_keys := %s; m_process := %s; m_send := %s |}",
+				bd.Bytes(q.lo), bd.Bytes(q.hi), resList(rcls, rItems), resList(kcls, kItems), resList(pcls, pItems), resList(scls, sItems)))
+		}
+		term := bd.Wrap(fmt.Sprintf("CMulti %d %d\n   %s\n   %s\n   [%s]\n   [%s]", w.inst, w.verID(v), coqStore(bd, entries), table,
+			strings.Join(pts, "; "), strings.Join(qs, ";\n    ")))
+		run.Add("multiclass", term, jcase{Kind: "multiclass", Seed: seed, Special: fmt.Sprintf("v%d", v)}, fmt.Sprintf("multiclass/%d/%d", seed, v))
+	}
+
+	// DeleteRange across classes and over the whole space, on the open version 4
+	dels := []iv{{minT(mcClasses[1]), maxT(mcClasses[3]), "cross-class-bounds"}, {minT(storage.TKeyMinClass), maxT(storage.TKeyMaxClass), "whole-space"}}
+	for j, q := range dels {
+		emit := only == "" || only == fmt.Sprintf("d%d", j+1)
+		if only != "" && only[0] == 'v' {
+			break
+		}
+		v := 4
+		vs := []int{4, 2, 1, 3}
+		bd := lib.NewBinder()
+		before := w.dump()
+		table := w.table(bd, v, before)
+		reads := func() string {
+			var ss []string
+			for _, vv := range vs {
+				for _, tk := range uni {
+					ss = append(ss, fmt.Sprintf("(%d, %s, %s)", w.verID(vv), bd.Bytes(tk), w.dbGet(vv, tk)))
+				}
+			}
+			return "[" + strings.Join(ss, "; ") + "]"
+		}
+		keysIn := func(a, b storage.TKey) string {
+			cls, items := "ok", []string(nil)
+			if pan, _ := lib.Recover(func() {
+				tks, err := w.db.KeysInRange(w.ctx(v), a, b)
+				if err != nil {
+					cls = "err"
+					return
+				}
+				for _, tk := range tks {
+					items = append(items, bd.Bytes(tk))
+				}
+			}); pan {
+				cls = "panic"
+			}
+			return resList(cls, items)
+		}
+		rb := reads()
+		kb := keysIn(minT(storage.TKeyMinClass), maxT(storage.TKeyMaxClass))
+		ok := true
+		if pan, _ := lib.Recover(func() {
+			if err := w.db.DeleteRange(w.ctx(v), q.lo, q.hi); err != nil {
+				ok = false
+			}
+		}); pan {
+			ok = false
+		}
+		after := w.dump()
+		ra := reads()
+		ka := keysIn(minT(storage.TKeyMinClass), maxT(storage.TKeyMaxClass))
+		kin := keysIn(q.lo, q.hi)
+		if j == 0 {
+			write(4, 4) // something to delete for the whole-space call
+		}
+		if !emit {
+			continue
+		}
+		term := bd.Wrap(fmt.Sprintf("CDeleteRange %d %d\n   %s\n   %s\n   %s %s %s\n   %s\n   %s\n   %s\n   %s %s %s\n   []", w.inst, w.verID(v), coqStore(bd, before), table,
+			bd.Bytes(q.lo), bd.Bytes(q.hi), lib.CoqBool(ok), coqStore(bd, after), rb, ra, kb, ka, kin))
+		run.Count("multiclass-delete-range:" + q.kind)
+		run.Add("multiclass-delete", term, jcase{Kind: "multiclass", Seed: seed, Special: fmt.Sprintf("d%d", j+1)}, fmt.Sprintf("multiclass-del/%d/%d", seed, j))
+	}
+}
+
 // build one random branched history; special adds the empty-value shape
 func build(seed uint64, n int, special string) *world {
 	rng := lib.NewRand(seed)
@@ -744,7 +998,11 @@ func main() {
 			fmt.Fprintln(os.Stderr, err)
 			os.Exit(2)
 		}
-		doHistory(c.Seed, c.Special, c.Version, c.Kind == "deleterange", c.N)
+		if c.Kind == "multiclass" {
+			multiClass(run, c.Seed, 1, o.Thorough(), c.Special)
+		} else {
+			doHistory(c.Seed, c.Special, c.Version, c.Kind == "deleterange", c.N)
+		}
 		run.Finish("c05case", "replay", tail)
 		shutdown()
 		os.Exit(0)
@@ -769,8 +1027,15 @@ func main() {
 		seed := rng.U64()
 		doHistory(seed, special, 0, false, 0)
 	}
+	nM := 1
+	if o.Thorough() {
+		nM = 8
+	}
+	for n := 0; n < nM; n++ {
+		multiClass(run, rng.U64(), n+1, o.Thorough(), "")
+	}
 	run.Finish("c05case",
-		"random branched histories (puts, deletes, batch writes, commits, branches, merges; 12 numbered keys plus prefix/extension/neighbour keys; every third history with empty values); per version: db.Get and GET key/k of every key, keys, keyvalues, and intervals with ends drawn from existing keys, their prefixes, extensions and neighbours, the whole space, single keys and empty intervals, through GetRange, KeysInRange, keyrange, keyrangevalues json/tar; one DeleteRange per history; distinct by (history seed, version)",
+		"storage-API section: an instance with TKeys in five classes written by db.Put/db.Delete over a branched DAG, per version GetRange, KeysInRange, ProcessRange, SendKeysInRange for intervals inside one class, across classes and over MinTKey(0)..MaxTKey(255), and DeleteRange across classes and over the whole space; random branched histories (puts, deletes, batch writes, commits, branches, merges; 12 numbered keys plus prefix/extension/neighbour keys; every third history with empty values); per version: db.Get and GET key/k of every key, keys, keyvalues, and intervals with ends drawn from existing keys, their prefixes, extensions and neighbours, the whole space, single keys and empty intervals, through GetRange, KeysInRange, keyrange, keyrangevalues json/tar; one DeleteRange per history; distinct by (history seed, version)",
 		tail)
 }
 
